@@ -179,7 +179,12 @@ class StructGen:
     # -- one draw ----------------------------------------------------------------------
     def draw(self, rng, view, namer, kind):
         fn = getattr(self, "g_" + kind)
-        return fn(rng, view, namer)
+        op = fn(rng, view, namer)
+        p = self.cfg.get("p_w_error")
+        if op is not None and p and rng.random() < p:
+            # the application runs with warnings turned into errors
+            op["w_error"] = True
+        return op
 
     # link family ---------------------------------------------------------
     def room_for_links(self, view):
